@@ -296,13 +296,14 @@ def check(run, ctx):
         # results of sibling helpers that are handed this call's builder
         built |= {el.id for n in ast.walk(f.node) if isinstance(n, ast.Assign) and isinstance(n.value, ast.Call) and any(isinstance(a, ast.Name) and a.id == "violation_builder" for a in n.value.args)
                   for t in n.targets for el in (t.elts if isinstance(t, ast.Tuple) else [t]) if isinstance(el, ast.Name)}
+        trees = frozenset(t.id for n in ast.walk(f.node) if isinstance(n, ast.Assign) and isinstance(n.value, ast.Call) and call_name(n.value) == "parse" for t in n.targets if isinstance(t, ast.Name))
         bad = None
         for n in ast.walk(f.node):
             if not isinstance(n, ast.Return) or n.value is None:
                 continue
             vals = n.value.elts if isinstance(n.value, ast.Tuple) else [n.value]
             for v in vals:
-                if _violation_free(v) or _built_by_param(v) or _all_names_in(v, built) or (isinstance(v, ast.Call) and not _mentions_storage(v)):
+                if _violation_free(v, trees) or _built_by_param(v) or _all_names_in(v, built) or (isinstance(v, ast.Call) and not _mentions_storage(v)):
                     continue
                 bad = (n, v)
         for n in ast.walk(f.node):   # anything written to / read from the context or another object is storage that outlives the call
@@ -322,8 +323,9 @@ def _built_by_param(v) -> bool:
     return isinstance(v, ast.Call) and isinstance(v.func, ast.Attribute) and isinstance(v.func.value, ast.Name) and v.func.value.id == "violation_builder"
 
 
-def _violation_free(v) -> bool:
-    return (isinstance(v, ast.List) and not v.elts) or (isinstance(v, ast.Constant) and v.value is None) or (isinstance(v, ast.Name) and v.id in ("tree", "None"))
+def _violation_free(v, trees=frozenset()) -> bool:
+    """[] / None / the parse tree itself (a local bound to the result of ast.parse) - nothing that could carry violations"""
+    return (isinstance(v, ast.List) and not v.elts) or (isinstance(v, ast.Constant) and v.value is None) or (isinstance(v, ast.Name) and v.id in trees)
 
 
 def _all_names_in(v, built) -> bool:
